@@ -11,12 +11,25 @@ ID="${1:?property id}"; MODE="${2:-quick}"
 mkdir -p bin evidence replays
 BIN="bin/vcheck.$$"
 trap 'rm -f "$BIN"' EXIT
-if ! go build -tags verif -o "$BIN" ./cmd/vcheck 2> bin/build.$$.log; then
+OVL="$(tools/overlay.sh "$VERIF_ROOT/.work/overlay.$$")"
+trap 'rm -f "$BIN"; rm -rf "$VERIF_ROOT/.work/overlay.$$"' EXIT
+if ! go build -tags verif -overlay "$OVL" -o "$BIN" ./cmd/vcheck 2> bin/build.$$.log; then
   cat bin/build.$$.log >&2; rm -f bin/build.$$.log
   echo "BUILD-FAILED property=$ID (the tree does not compile with -tags verif)" >&2
   exit 2
 fi
 rm -f bin/build.$$.log
+if [ "$ID" = "C08" ]; then
+  # the free-running complement of C08 needs the race detector compiled in
+  export VERIF_RACE_BIN="$VERIF_ROOT/bin/racepass.$$"
+  trap 'rm -f "$BIN" "$VERIF_RACE_BIN"; rm -rf "$VERIF_ROOT/.work/overlay.$$"' EXIT
+  if ! go build -race -gcflags=all=-d=checkptr=0 -tags verif -overlay "$OVL" -o "$VERIF_RACE_BIN" ./cmd/racepass 2> bin/build.$$.log; then
+    cat bin/build.$$.log >&2; rm -f bin/build.$$.log
+    echo "BUILD-FAILED property=$ID (race pass binary)" >&2
+    exit 2
+  fi
+  rm -f bin/build.$$.log
+fi
 case "$MODE" in
   quick|thorough) "$BIN" run "$ID" "$MODE"; exit $? ;;
   replay) "$BIN" replay "$ID" "${3:?replay path}"; exit $? ;;
